@@ -118,6 +118,9 @@ def _cases(root: pathlib.Path, garbage: int) -> List[Tuple[str, pathlib.Path, pa
     cases.append(("--model_path that does not exist", root / "nope.py", full, out_dir(), py))
     cases.append(("--model_path that ends in a line break and does not exist", root / "nope.py\n", full, out_dir(), py))
     cases.append(("--model_path that is a directory", full, full, out_dir(), py))
+    not_utf8 = root / "not_utf8.py"
+    not_utf8.write_bytes(c06.BASE.encode("utf-8") + b"# \xff\xfe\n")
+    cases.append(("model file that is not encoded in UTF-8", not_utf8, full, out_dir(), py))
     cases.append(("--snippets_dir that does not exist", good, root / "nope", out_dir(), py))
     cases.append(("--snippets_dir that is a file", good, a_file, out_dir(), py))
     cases.append(("--output_dir that is a file", good, full, a_file, py))
